@@ -136,6 +136,7 @@ def run_case(spec, ctx):
         ctx.seen("initial_identifier_forms", str(init["id"]))
         last_id = None
         last_persisted = True
+        last_dir_absent = False
         for step, op in enumerate(spec["ops"]):
             name = op[0]
             ctx.count("operations")
@@ -147,6 +148,7 @@ def run_case(spec, ctx):
                     with open(idf, "rb") as f:
                         pre = (st.st_ino, st.st_mtime_ns, f.read())
                 got = None
+                dir_absent_before = not os.path.isdir(d[1])
                 with audit.record() as events:
                     try:
                         got = u.generate_machine_id(new=(name == "regen"), destination_file=idf)
@@ -159,8 +161,8 @@ def run_case(spec, ctx):
                     ctx.violation("identifier-not-canonical", dict(w, got=repr(got), file=repr(pre[2] if pre else None)))
                 if name == "read":
                     if last_id is not None and got != last_id:
-                        ctx.violation(KNOWN_F10 if not last_persisted else "identifier-changed-without-regeneration",
-                                      dict(w, previous=last_id, got=got, previous_persisted=last_persisted))
+                        ctx.violation(KNOWN_F10 if (not last_persisted and last_dir_absent) else "identifier-changed-without-regeneration",
+                                      dict(w, previous=last_id, got=got, previous_persisted=last_persisted, directory_absent_at_previous_read=last_dir_absent))
                     if pre and pre[2].strip():
                         ctx.count("reads_of_existing_file_checked")
                         st = os.stat(idf) if os.path.isfile(idf) else None
@@ -175,6 +177,7 @@ def run_case(spec, ctx):
                                 ctx.violation("identifier-file-opened-for-writing-by-a-read", dict(w, event=list(ev)))
                 last_id = got
                 last_persisted = os.path.isfile(idf) and bool(open(idf).read().strip())
+                last_dir_absent = dir_absent_before
             elif name in ("register", "unregister"):
                 links_before = [p for p in (constants.registered_files if name == "register" else constants.unregistered_files) if os.path.islink(p)]
                 try:
